@@ -14,7 +14,7 @@ impl Prop for C17 {
         "C17"
     }
     fn rule(&self) -> String {
-        "cases = 1-3 prepared statements with 1-6 parameters and a history of 1-12 rounds; a round sends 0-5 COM_STMT_SEND_LONG_DATA chunks (sizes 0, 1, 300, 70000, random; one >= 2^24-byte chunk in the enumerated cases) addressed to generated (statement, parameter) targets, possibly for several statements at once, (occasionally followed by a re-prepare that hands out the same id and parameter count again, which must discard what is pending), then executes one statement whose long-data parameters are omitted inline (as clients do) while the others are sent inline incl. NULLs. One enumerated history executes a single statement more than 65536 (thorough: 131072) times - a streamed value first, inline values afterwards - so that 'delivered to exactly one execution' is also checked at distances where narrow counters wrap; another streams one parameter in more than 65536 (thorough: 200000) one-byte and empty chunks. Oracle: reference model pending[stmt][param]; at an execution the addressed parameters arrive as bytes equal to the in-order concatenation, the others exactly as encoded; afterwards the statement's pending data is empty (the next execution sees its inline value); other statements' pending data is untouched. Non-trivial = >= 2 chunks for one target, or long data pending for another statement across an execution, or an execution without long data after one with.".into()
+        "cases = 1-3 prepared statements with 1-6 parameters and a history of 1-12 rounds; a round sends 0-5 (one round in ten: 20-120, interleaved over the targets) COM_STMT_SEND_LONG_DATA chunks (sizes 0, 1, 300, 70000, random; one >= 2^24-byte chunk in the enumerated cases) addressed to generated (statement, parameter) targets, possibly for several statements at once, (occasionally followed by a re-prepare that hands out the same id and parameter count again, which must discard what is pending), then executes one statement whose long-data parameters are omitted inline (as clients do) while the others are sent inline incl. NULLs. One enumerated history executes a single statement more than 65536 (thorough: 131072) times - a streamed value first, inline values afterwards - so that 'delivered to exactly one execution' is also checked at distances where narrow counters wrap; another streams one parameter in more than 65536 (thorough: 200000) one-byte and empty chunks. Oracle: reference model pending[stmt][param]; at an execution the addressed parameters arrive as bytes equal to the in-order concatenation, the others exactly as encoded; afterwards the statement's pending data is empty (the next execution sees its inline value); other statements' pending data is untouched. Non-trivial = >= 2 chunks for one target, or long data pending for another statement across an execution, or an execution without long data after one with.".into()
     }
     fn assumptions(&self) -> Vec<String> {
         vec!["long data is only addressed to non-NULL parameters of string type, as client libraries do".into()]
@@ -41,7 +41,12 @@ impl Prop for C17 {
         // pending targets per statement
         let mut pending: Vec<Vec<bool>> = stmts.iter().map(|(_, n)| vec![false; *n]).collect();
         for _ in 0..rounds {
-            let nch = g.weighted(&[2, 3, 2, 1, 1, 1]);
+            let mut nch = g.weighted(&[2, 3, 2, 1, 1, 1]);
+            // sometimes a burst: dozens of small chunks interleaved over several parameters (and
+            // statements), as a client does that streams several BLOBs in lock-step
+            if g.chance(1, 10) {
+                nch = g.usize_in(20, 120);
+            }
             for _ in 0..nch {
                 let s = g.below(ns as u64) as usize;
                 let p = g.below(stmts[s].1 as u64) as usize;
@@ -164,6 +169,9 @@ impl Prop for C17 {
                     if *c >= 2 {
                         ex.nontrivial = true;
                         ex.class("multi-chunk-target");
+                    }
+                    if chunks.values().sum::<usize>() >= 33 && chunks.len() >= 2 {
+                        ex.class(">=33-chunks-pending-over->=2-targets");
                     }
                 }
                 Op::Exec { stmt, params, .. } => {
